@@ -170,6 +170,13 @@ func main() {
 		fmt.Println("usage: vcheck run <property> [--tier quick|thorough] | replay <file> | list")
 		os.Exit(2)
 	}
+	if exe, err := os.Executable(); err == nil {
+		// default root: the directory that holds bin/vcheck (so snapshots and copies are self-contained)
+		root := filepath.Dir(filepath.Dir(exe))
+		if _, err := os.Stat(filepath.Join(root, "harness", "rt.go.txt")); err == nil {
+			verifRoot = root
+		}
+	}
 	if v := os.Getenv("VERIF_ROOT"); v != "" {
 		verifRoot = v
 	}
